@@ -1116,6 +1116,164 @@ def search_channels(ctx):
     S.done()
 
 
+def search_channel_gate_objects(ctx):
+    """KrausChannel / UnitaryChannel built from Gate OBJECTS (gates.Unitary with generic
+    matrices, CNOT / CRX / fSim) declared on ascending AND descending qubits, with `qubits` an
+    explicit list of target tuples (ascending / descending / non-adjacent) or the empty list.
+    Documented meaning: the i-th declared qubit of gate k goes to the i-th requested qubit of
+    tuple k (empty list: the gate stays where it was declared).  to_choi / to_liouville /
+    to_pauli_liouville and the execution on a density matrix are compared with the SPEC
+    matrices of  ρ ↦ Σ_k K_k ρ K_k†,  K_k = the gate's matrix embedded on the requested
+    ordered qubits (independent of the channel's own execution)."""
+    from qibo import Circuit, gates
+    from qibo.backends import NumpyBackend
+
+    nb = NumpyBackend()
+    S = Search(ctx, "channel_gate_objects")
+    rng = ctx.rng
+
+    CNOT = np.array([[1, 0, 0, 0], [0, 1, 0, 0], [0, 0, 0, 1], [0, 0, 1, 0]], dtype=complex)
+
+    def gate_pool(n, unitary):
+        """(source, 2^k matrix in DECLARED qubit order, declared qubits)."""
+        out = []
+        a = rng.randrange(n)
+        m1 = np.linalg.qr(cmatrix(rng, 2))[0] if unitary else cmatrix(rng, 2) * 0.5
+        out.append((f"gates.Unitary({arr_src(m1)}, {a})", m1, (a,)))
+        for desc in (False, True):
+            q = sorted(rng.sample(range(n), 2), reverse=desc)
+            m2 = np.linalg.qr(cmatrix(rng, 4))[0] if unitary else cmatrix(rng, 4) * 0.3
+            out.append((f"gates.Unitary({arr_src(m2)}, {q[0]}, {q[1]})", m2, tuple(q)))
+            if unitary:
+                th, ph = rng.uniform(0.2, 2.8), rng.uniform(0.2, 2.8)
+                c, s = math.cos(th / 2), math.sin(th / 2)
+                crx = np.eye(4, dtype=complex)
+                crx[2:, 2:] = [[c, -1j * s], [-1j * s, c]]
+                fs = np.eye(4, dtype=complex)
+                fs[1:3, 1:3] = [[math.cos(th), -1j * math.sin(th)], [-1j * math.sin(th), math.cos(th)]]
+                fs[3, 3] = np.exp(-1j * ph)
+                q = sorted(rng.sample(range(n), 2), reverse=desc)
+                out.append((f"gates.CNOT({q[0]}, {q[1]})", CNOT, tuple(q)))
+                q = sorted(rng.sample(range(n), 2), reverse=desc)
+                out.append((f"gates.CRX({q[0]}, {q[1]}, {th!r})", crx, tuple(q)))
+                q = sorted(rng.sample(range(n), 2), reverse=desc)
+                out.append((f"gates.fSim({q[0]}, {q[1]}, {th!r}, {ph!r})", fs, tuple(q)))
+        return out
+
+    def requested(n, k, form):
+        if form == "empty":
+            return None
+        if k == 1:
+            return (rng.randrange(n),)
+        q = sorted(rng.sample(range(n), 2))
+        if form == "nonadjacent" and n > 2:
+            q = sorted(rng.choice([(x, y) for x in range(n) for y in range(x + 2, n)]))
+        return tuple(q[::-1]) if form == "descending" or (form == "nonadjacent" and rng.random() < 0.5) else tuple(q)
+
+    for n in (2, 3) + ((4,) if ctx.thorough else ()):
+        d = 2**n
+        for cls in ("KrausChannel", "UnitaryChannel"):
+            unitary = cls == "UnitaryChannel"
+            pool = gate_pool(n, unitary)
+            two = [g for g in pool if len(g[2]) == 2]
+            for form in ("ascending", "descending", "nonadjacent", "empty"):
+                for pick in two:
+                    # one single-qubit gate + the two-qubit gate under test (+ a second one)
+                    chosen = [pool[0], pick] + ([rng.choice(two)] if rng.random() < 0.5 else [])
+                    req = [requested(n, len(g[2]), form) for g in chosen]
+                    probs = [rng.uniform(0.05, 0.9 / len(chosen)) for _ in chosen]
+                    if form == "empty":
+                        qsrc, where = "[]", [g[2] for g in chosen]
+                    else:
+                        qsrc, where = repr(req), req
+                    if unitary:
+                        ops_src = "[" + ", ".join(f"({p!r}, {g[0]})" for p, g in zip(probs, chosen)) + "]"
+                        Ks = [math.sqrt(p) * Ref.embed(g[1], list(w), n) for p, g, w in zip(probs, chosen, where)]
+                        Ks.append(math.sqrt(1 - sum(probs)) * np.eye(d, dtype=complex))
+                    else:
+                        ops_src = "[" + ", ".join(g[0] for g in chosen) + "]"
+                        Ks = [Ref.embed(g[1], list(w), n) for g, w in zip(chosen, where)]
+                    ctor = f"gates.{cls}({qsrc}, {ops_src})"
+                    decl = [g[2] for g in chosen]
+                    descr = f"{cls} from Gate objects declared on {decl} with qubits={qsrc} in {n} qubits"
+                    try:
+                        ch = eval(ctor, {"gates": gates, "np": np})
+                    except Exception:  # constructor signature differs: not this property's concern
+                        ctx.stat(f"channel_ctor_skipped:{cls}-gates")
+                        continue
+                    kind = f"{cls}:{'declared-desc' if any(list(x) != sorted(x) for x in decl) else 'declared-asc'}:{form}"
+                    ks_src = ("# K_k = (sqrt(p_k) x) gate matrix embedded on the requested ordered qubits: i-th declared qubit -> i-th requested qubit\n"
+                              + f"Ks = [{', '.join(arr_src(K) for K in Ks)}]\n")
+
+                    def replay(call, cmp_src, exp, ctor=ctor, ks_src=ks_src, n=n):
+                        if exp.size <= 4096:
+                            return HDR + f"ch = {ctor}\nout = np.asarray(ch.{call})\n" + ks_src + f"exp = {arr_src(exp)}  # {cmp_src}\nassert np.allclose(out, exp, atol=1e-8)\n"
+                        # too large to print: the replay checks the row-order Choi matrix of the same channel
+                        return (HDR + REF_SRC + f"ch = {ctor}\n# failing call: ch.{call}\nout = np.asarray(ch.to_choi(nqubits={n}, order='row'))\n" + ks_src
+                                + "exp = choi_of(Ks, 'row')\nassert np.allclose(out, exp, atol=1e-8)\n")
+
+                    for order in ORDERS:
+                        exp = Ref.choi(Ks, order)
+                        try:
+                            out = np.asarray(ch.to_choi(nqubits=n, order=order))
+                            ok = close(out, exp)
+                        except Exception as e:
+                            ok, out = False, repr(e)
+                        ctx.stat("Channel.to_choi")
+                        ctx.case(("chan-gates", kind, n, order))
+                        S.check(ok, f"Channel.to_choi:gate-objects:{kind}:{order}",
+                                f"to_choi(order={order}) of {descr} is not the Choi matrix of Σ K ρ K† with each gate on its requested ordered qubits",
+                                lambda: replay(f"to_choi(nqubits={n}, order={order!r})", "Σ_k |K_k)(K_k|", exp),
+                                expected="Σ_k |K_k)(K_k| with K_k on the requested ordered qubits",
+                                observed=None if ok else (out if isinstance(out, str) else f"max |Δ| = {np.abs(out - exp).max():.3g}" if out.shape == exp.shape else f"shape {out.shape}"))
+                        if order == "system":
+                            continue
+                        exp = Ref.liouville(Ks, order)
+                        try:
+                            out = np.asarray(ch.to_liouville(nqubits=n, order=order))
+                            ok = close(out, exp)
+                        except Exception as e:
+                            ok, out = False, repr(e)
+                        ctx.stat("Channel.to_liouville")
+                        S.check(ok, f"Channel.to_liouville:gate-objects:{kind}:{order}",
+                                f"to_liouville(order={order}) of {descr} is not the Liouville matrix of Σ K ρ K† with each gate on its requested ordered qubits",
+                                lambda: replay(f"to_liouville(nqubits={n}, order={order!r})", "Σ_k K_k ⊗ conj(K_k) in that order", exp),
+                                expected="Liouville matrix of Σ K ρ K†",
+                                observed=None if ok else (out if isinstance(out, str) else f"max |Δ| = {np.abs(out - exp).max():.3g}" if out.shape == exp.shape else f"shape {out.shape}"))
+                    for normalize in (False, True):
+                        po = rng.choice(ALL_PO)
+                        exp = Ref.pauli(Ks, n, normalize, po)
+                        try:
+                            out = np.asarray(ch.to_pauli_liouville(nqubits=n, normalize=normalize, pauli_order=po))
+                            ok = close(out, exp)
+                        except Exception as e:
+                            ok, out = False, repr(e)
+                        ctx.stat("Channel.to_pauli_liouville")
+                        S.check(ok, f"Channel.to_pauli_liouville:gate-objects:{kind}:{'norm' if normalize else 'unnorm'}",
+                                f"to_pauli_liouville(normalize={normalize}, pauli_order={po}) of {descr} is not the Pauli-Liouville matrix of Σ K ρ K†",
+                                lambda: replay(f"to_pauli_liouville(nqubits={n}, normalize={normalize}, pauli_order={po!r})", "Pauli-Liouville matrix", exp),
+                                expected="Pauli-Liouville matrix of Σ K ρ K†",
+                                observed=None if ok else (out if isinstance(out, str) else f"max |Δ| = {np.abs(out - exp).max():.3g}" if out.shape == exp.shape else f"shape {out.shape}"))
+                    # execution on a density matrix
+                    rho = cmatrix(rng, d)
+                    rho = rho @ rho.conj().T
+                    rho = rho / np.trace(rho)
+                    exp = Ref.apply_kraus(Ks, rho)
+                    try:
+                        c = Circuit(n, density_matrix=True)
+                        c.add(ch)
+                        out = np.asarray(nb.execute_circuit(c, initial_state=rho.copy()).state())
+                        ok = close(out, exp, 1e-7)
+                    except Exception as e:
+                        ok, out = False, repr(e)
+                    ctx.stat("Channel.apply_density_matrix")
+                    S.check(ok, f"Channel.apply_density_matrix:gate-objects:{kind}",
+                            f"executing {descr} on a density matrix is not Σ K ρ K† with each gate on its requested ordered qubits",
+                            lambda: HDR + f"from qibo import Circuit\nch = {ctor}\nc = Circuit({n}, density_matrix=True); c.add(ch)\nrho = {arr_src(rho)}\nout = c(rho.copy()).state()\nexp = {arr_src(exp)}\nassert np.allclose(out, exp, atol=1e-7)\n",
+                            expected="Σ K ρ K†", observed=None if ok else (out if isinstance(out, str) else f"max |Δ| = {np.abs(out - exp).max():.3g}"))
+    S.done()
+
+
 def search_networks(ctx):
     """QuantumChannel built from a Choi operator (row vectorisation, `inverse=True`, as
     documented) or from a pure operator: apply, link product with a state network, composition
@@ -1439,10 +1597,14 @@ def run(ctx):
     search_stinespring(ctx)
     search_to_helpers(ctx)
     search_channels(ctx)
+    search_channel_gate_objects(ctx)
     search_networks(ctx)
     from props import C17_networks
 
     C17_networks.run_suites(ctx)
+    from props import C17_relabel
+
+    C17_relabel.run_suites(ctx)
     ctx.notes.append("exact Gaussian-integer correspondence of the Lean index model with vectorization/unvectorization (3 orders, d in {2,3,4,8}), _reshuffling, kraus_to_choi/liouville/chi (ordered non-adjacent targets, ranks 1..d^2), Channel.to_choi/to_liouville, comp_basis_to_pauli (24 orderings), liouville_to_pauli/pauli_to_liouville/choi_to_chi/chi_to_choi, kraus_to_stinespring/stinespring_to_kraus; normalize=True variants = 2^(-n/2)-scaled un-normalised matrices, exact B†B = 2^n·1, exact 4^n round trips and kraus_to_chi = choi_to_chi∘kraus_to_choi on Gaussian integers, flag-pair round-trip factors (C17_corr_normalize, ties Props/C17c); numeric search (1e-8) of all 30 a_to_b functions x orders x Pauli orderings x normalisations against an independent SPEC, round trips, path independence, spectral branches, Stinespring, to_* helpers, gates.Channel.to_*, quantum networks")
     ctx.assumptions.append("spectral steps (eigh, svd, qr) are library contracts; their use is checked numerically (1e-7) by reconstructing the Choi matrix from the returned operators")
     ctx.assumptions.append("kraus_to_unitaries (numerical optimisation) is outside the property check")
